@@ -63,8 +63,11 @@ def defaultTimeoutNs : Int := 5000000000
 def nsPerMs : Int := 1000000
 
 /-- Value of the `_timeout` header written by `SetTimeout(d)`: `int64(d / time.Millisecond)`
-(Go integer division truncates toward zero) in decimal. -/
-def encodeTimeout (ns : Int) : Bytes := formatInt (Int.tdiv ns nsPerMs)
+(Go integer division truncates toward zero) in decimal; since fix
+`SetTimeout rounds a positive sub-millisecond timeout up to 1 ms` a positive duration never encodes as 0. -/
+def encodeTimeout (ns : Int) : Bytes :=
+  -- a positive timeout below the header's resolution is written as 1 ms, not as 0 ("no deadline")
+  if 0 < ns ∧ Int.tdiv ns nsPerMs = 0 then formatInt 1 else formatInt (Int.tdiv ns nsPerMs)
 
 /-- Milliseconds `Timeout()` parses from the header value, `none` when ParseInt fails. -/
 def decodeTimeoutMs (v : Bytes) : Option Int := parseI64 v
